@@ -53,6 +53,8 @@ def run(ctx):
     for t in range(nt):
         n = rnd.randrange(2, 11)
         # every fourth history also passes through save + load now and then: the requests continue on the loaded project
+        if t == 5:          # scale: more than 256 modules
+            n = 262
         traces.append(links.random_history(ctx, rnd, "h%d" % t, n, rnd.randrange(ln // 2, ln + 1), classes,
                                            p_save=0.06 if t % 4 == 3 else 0.0, variants=("canonical", "always"),
                                            trailing=rnd.choice([0, 0, 1, 2]) if t % 4 == 3 else 0))
